@@ -141,8 +141,12 @@ pub fn generate(r: &mut Runner) {
     for i in 0..cases {
         let name = ind::NAMES[i % ind::NAMES.len()];
         let (ps, ms) = crate::diff::params_for(&mut r.rng, name, 40);
+        // "every parameter choice": multipliers of either sign, fractional, zero of either sign, large
+        let ms: Vec<f64> = ms.iter().map(|_| *r.rng.pick(MULTIPLIERS)).collect();
         let len = r.rng.range(1, maxlen);
-        let scale = *r.rng.pick(&[1.0, 100.0, 1e6]);
+        // every fourth round of the indicator list on a tiny scale (an absolute epsilon in one of the two paths
+        // shows only on values far below 1)
+        let scale = if (i / ind::NAMES.len()) % 4 == 3 { *r.rng.pick(TINY_SCALES) } else { *r.rng.pick(&[1.0, 100.0, 1e6]) };
         let kinds: Vec<&str> = {
             let mut k = vec!["unread-fields", "dataitem"];
             if scalar_field(name).is_some() {
@@ -181,6 +185,53 @@ pub fn generate(r: &mut Runner) {
         }
         r.run(c, len > 1);
     }
+    // one-price bars vs the scalar path and bar vs documented field on tiny scales, all-positive streams (spreads far
+    // below 2.2e-16 between DIFFERENT prices), for every multiplier sign
+    let reps = if r.tier == Tier::Quick { 3 } else { 40 };
+    for name in ind::NAMES {
+        let one = ONE_PRICE.contains(name);
+        if !one && scalar_field(name).is_none() {
+            continue;
+        }
+        for scale in TINY_SCALES {
+            for _ in 0..reps {
+                let (ps, ms) = crate::diff::params_for(&mut r.rng, name, 20);
+                let ms: Vec<f64> = ms.iter().map(|_| *r.rng.pick(MULTIPLIERS)).collect();
+                let len = r.rng.range(2, maxlen);
+                let regime = *r.rng.pick(&["walk", "alt", "plateau", "saw", "trend", "mixed", "alphabet"]);
+                let xs = gen::stream(&mut r.rng, regime, len, true, *scale);
+                let mut c = Case::new("C10", if one { "one-price" } else { "bar-vs-field" }, name, &ps, &ms);
+                if one {
+                    c.ops = xs.into_iter().map(|x| Op::Bar(B { o: x, h: x, l: x, c: x, v: 1.0 })).collect();
+                } else {
+                    // the documented field follows the stream, the other four fields are unrelated values on the same scale
+                    let f = scalar_field(name).unwrap();
+                    c.ops = xs
+                        .into_iter()
+                        .map(|x| {
+                            let mut b = B { o: *scale * r.rng.unit(), h: *scale * 3.0 * r.rng.unit(), l: -*scale * r.rng.unit(), c: *scale * 7.0 * r.rng.unit(), v: r.rng.unit() };
+                            // put x into the field the indicator is documented to read
+                            for (k, probe) in [B { o: 1.0, h: 0.0, l: 0.0, c: 0.0, v: 0.0 }, B { o: 0.0, h: 1.0, l: 0.0, c: 0.0, v: 0.0 }, B { o: 0.0, h: 0.0, l: 1.0, c: 0.0, v: 0.0 }, B { o: 0.0, h: 0.0, l: 0.0, c: 1.0, v: 0.0 }].iter().enumerate() {
+                                if f(probe) == 1.0 {
+                                    match k {
+                                        0 => b.o = x,
+                                        1 => b.h = x,
+                                        2 => b.l = x,
+                                        _ => b.c = x,
+                                    }
+                                }
+                            }
+                            Op::Bar(b)
+                        })
+                        .collect();
+                }
+                r.run(c, true);
+            }
+        }
+    }
 }
 
-pub const RULE: &str = "bar-vs-field: an instance fed bars whose five fields vary independently (5% with non-finite fields) vs a twin fed the documented scalar field (close; low for Minimum; high for Maximum), 1e-12 relative; one-price: FastStochastic, SlowStochastic, TrueRange, ATR, KeltnerChannel fed bars open=high=low=close=x vs the scalar path on x (KeltnerChannel within tau(t)·M for the rounding of (x+x+x)/3); unread-fields: twin fed the same bars with every field outside the documented read set (open always; volume except MFI/OBV; high/low for close-only indicators, …) replaced by unrelated values — outputs must be bit-identical; dataitem: a user-defined implementor vs ta::DataItem carrying the same numbers. Non-trivial = more than one bar.";
+pub const TINY_SCALES: &[f64] = &[1e-9, 1e-17, 1e-20, 1e-300];
+pub const MULTIPLIERS: &[f64] = &[-1e3, -3.0, -2.5, -1.0, -0.5, -0.0, 0.0, 0.25, 1.0 / 3.0, 0.5, 1.0, 1.5, 2.0, 2.5, 3.0, 10.0, 1e3];
+
+pub const RULE: &str = "bar-vs-field: an instance fed bars whose five fields vary independently (5% with non-finite fields) vs a twin fed the documented scalar field (close; low for Minimum; high for Maximum), 1e-12 relative; one-price: FastStochastic, SlowStochastic, TrueRange, ATR, KeltnerChannel fed bars open=high=low=close=x vs the scalar path on x (KeltnerChannel within tau(t)*M for the rounding of (x+x+x)/3); unread-fields: twin fed the same bars with every field outside the documented read set (open always; volume except MFI/OBV; high/low for close-only indicators, ...) replaced by unrelated values - outputs must be bit-identical; dataitem: a user-defined implementor vs ta::DataItem carrying the same numbers. Parameters: periods to 40; multipliers (BB, KC, CE) from {-1e3, -3, -2.5, -1, -0.5, -0, 0, 0.25, 1/3, 0.5, 1, 1.5, 2, 2.5, 3, 10, 1e3} (either sign, fractional). Scales {1, 100, 1e6} and, every fourth round of the indicator list, the tiny scales {1e-9, 1e-17, 1e-20, 1e-300}; plus a tiny-scale stage: for each tiny scale, 3 (quick) / 40 (thorough) all-positive streams per indicator (periods to 20) - one-price bars for the five one-price indicators, and for the bar-vs-field indicators bars whose documented field follows the stream while the other fields are unrelated values of the same scale - so that DIFFERENT prices less than 2.2e-16 apart are compared. Non-trivial = more than one bar.";
